@@ -5,41 +5,11 @@
 //! the documentation of `AuthorityScope` ("every list is: empty means every value")
 //! and of `covers` ("an empty *value* against a bounded list does not match"), not
 //! the body of the function.
+#[path = "c19_common.rs"]
+mod common;
 use super::*;
+use common::{spec_covers, sym_str};
 use core::mem::ManuallyDrop;
-
-fn same_bytes(a: &[u8], b: &[u8]) -> bool {
-    if a.len() != b.len() {
-        return false;
-    }
-    let mut i = 0;
-    while i < a.len() {
-        if a[i] != b[i] {
-            return false;
-        }
-        i += 1;
-    }
-    true
-}
-
-/// `value` is one of the listed values (byte-wise equality, written out so that the
-/// specification does not go through `PartialEq for String` like the code does).
-pub(super) fn listed(bound: &[String], value: &str) -> bool {
-    let mut i = 0;
-    while i < bound.len() {
-        if same_bytes(bound[i].as_bytes(), value.as_bytes()) {
-            return true;
-        }
-        i += 1;
-    }
-    false
-}
-
-/// A bound list covers a value iff the list is empty (unrestricted) or the value
-/// is a non-empty listed value.
-pub(super) fn spec_covers(bound: &[String], value: &str) -> bool {
-    bound.len() == 0 || (value.len() != 0 && listed(bound, value))
-}
 
 pub(super) fn post_iff(bound: &[String], value: &str, r: &bool) -> bool {
     *r == spec_covers(bound, value)
@@ -54,19 +24,6 @@ pub(super) fn post_empty_list_unrestricted(bound: &[String], r: &bool) -> bool {
 /// happens to contain the empty string).
 pub(super) fn post_empty_value_never_bounded(bound: &[String], value: &str, r: &bool) -> bool {
     !(bound.len() != 0 && value.len() == 0) || !*r
-}
-
-/// A string of exactly `len` (<= 2) ASCII bytes, every byte symbolic.
-pub(super) fn sym_str(len: usize) -> String {
-    let mut v: Vec<u8> = Vec::with_capacity(2);
-    let mut i = 0;
-    while i < len {
-        let b: u8 = kani::any();
-        kani::assume(b < 0x80);
-        v.push(b);
-        i += 1;
-    }
-    unsafe { String::from_utf8_unchecked(v) }
 }
 
 fn block(bound: Vec<String>, value: String) {
